@@ -283,10 +283,12 @@ def dedupAdj : List Bytes → List Bytes
   | [x] => [x]
   | x :: y :: rest => if x == y then dedupAdj (y :: rest) else x :: dedupAdj (y :: rest)
 
+def Op.mapKey? (o : Op) : Option Bytes := match o.key with | .map k => some k | _ => none
+
 /-- keys of a map object with a visible value, in store order -/
 def storeMapKeys (s : Store) (obj : ObjId) : List Bytes :=
   dedupAdj ((s.filter (fun r => r.op.obj == obj && r.op.isValue && Row.isVisible r)).filterMap
-    (fun r => match r.op.key with | .map k => some k | _ => none))
+    (fun r => r.op.mapKey?))
 
 def storeSeqElems (s : Store) (obj : ObjId) : List (OpId × List Entry) :=
   (storeSeqOrder s obj).filterMap (fun e =>
